@@ -103,12 +103,22 @@ def run(ctx):
                 ctx.count("single_directed_generator_graphs")
             cfgd = G.gen_config(rng, gd)
             graph = G.make_graph(gd, cfgd)
+            if gd["kind"] == "perm" and it_ % 3 == 2:
+                # the searched object is a DERIVED copy (modified_copy from a graph with another central state): it must recognise its own central state
+                _, d0_ = G.ref_bfs(gd, [gd["central"]])
+                base_ = G.make_graph(dict(gd, central=list(rng.choice(sorted(d0_)))), cfgd)
+                graph = base_.modified_copy(base_.definition.with_central_state(list(gd["central"])))
+                ctx.count("searches_on_a_derived_copy")
             ic = bool(graph.definition.generators_inverse_closed)
             layers, dist = G.ref_bfs(gd, [gd["central"]])
             verts = sorted(dist)
             r = rng.random()
             start = list(rng.choice(verts)) if r < 0.9 else (P.outside_state(rng, gd, dist) or list(rng.choice(verts)))
             _, dist_from_start = G.ref_bfs(gd, [start])
+            if len(dist_from_start) > max(400, 2 * len(dist)):
+                # a start state outside the orbit whose own orbit is far larger than the graph the case was sized for (costly for the model, nothing new)
+                start = list(rng.choice(verts))
+                _, dist_from_start = G.ref_bfs(gd, [start])
             advanced = rng.random() < 0.4
             orbit = len(dist_from_start)
             width = rng.choice([1, 2, 3, 5, orbit * G.n_gens(gd) + 1, orbit * G.n_gens(gd) + 1])
@@ -236,6 +246,20 @@ def run(ctx):
             metas.append(case)
     finally:
         bs.torch = real_torch
+    # ---- a VERY deep ball (more than 255 layers): a marked bead on a necklace of 520 beads under both rotations; start just outside the ball ----
+    from cayleypy import CayleyGraph, CayleyGraphDef
+    nb_ = 520
+    neck = CayleyGraphDef.create([[(i + 1) % nb_ for i in range(nb_)], [(i - 1) % nb_ for i in range(nb_)]], central_state=[1] + [0] * (nb_ - 1))
+    gneck = CayleyGraph(neck, device="cpu")
+    ball_ = gneck.bfs(max_diameter=257, return_all_hashes=True)
+    for dist_ in (256, 257, 259):
+        start_ = [0] * nb_
+        start_[dist_] = 1                      # the mark sits dist_ rotations away from position 0
+        r_ = gneck.beam_search(start_state=start_, beam_mode="simple", beam_width=8, max_steps=10, bfs_result_for_mitm=ball_, return_path=False)
+        ctx.count("deep_ball_searches")
+        if not r_.path_found or int(r_.path_length) != dist_:
+            ctx.violation("property_fails", f"simple beam search with a ball of depth 257 on the 520-bead necklace reports found={r_.path_found}, length={r_.path_length} "
+                          f"for a start state at distance {dist_}", {"graph": "necklace-520", "distance": dist_, "claim": "deep_ball"}, True)
     # ---- corpus: minimised failing cases (known findings) are replayed on every run ----
     import glob
     import json
